@@ -45,6 +45,26 @@ thread_local! {
         first_bad_tag: Cell::new(INVALID_TAG),
     };
     static LIB_SCOPE: Cell<bool> = const { Cell::new(false) };
+    static STEP_ACTIVE: Cell<bool> = const { Cell::new(false) };
+}
+
+/// True while a world executes a step (set around its catch_unwind). Library handles that are
+/// dropped by unwinding run outside every `lib()` scope; allocations they make are still the
+/// library's and must be tracked by the allocator monitor.
+#[inline]
+pub fn in_step() -> bool {
+    STEP_ACTIVE.with(|c| c.get())
+}
+pub struct StepGuard(bool);
+impl Drop for StepGuard {
+    #[inline]
+    fn drop(&mut self) {
+        STEP_ACTIVE.with(|c| c.set(self.0));
+    }
+}
+#[inline]
+pub fn enter_step() -> StepGuard {
+    StepGuard(STEP_ACTIVE.with(|c| c.replace(true)))
 }
 
 #[inline]
